@@ -11,7 +11,9 @@ GENV = dict(os.environ, GIT_AUTHOR_NAME="v", GIT_AUTHOR_EMAIL="v@v", GIT_COMMITT
 # candidate paths: inside, near misses sharing a prefix or suffix with the configured ones
 NAMES = ["{d}/a.{x}", "{d}/sub/b.{x}", "{d}/sub/deep/er/c.{x}", "{d}-old/c.{x}", "{d}file.{x}", "{d}/d.x{x}", "{d}/e.{x}",
          "{d}/.{x}", "{d}/f.{x}.bak", "other/g.{x}", "{d}/h.{X}", "x{d}/i.{x}", "{d}/j{x}", "{d}.{x}", "{d}/k.l.{x}", "{d}/{d}/m.{x}",
-         "z/{d}/n.{x}", "{d}/o.{x}x", "readme.md"]
+         "z/{d}/n.{x}", "{d}/o.{x}x", "readme.md",
+         # dot directories and dot files below the directory are journal files like any other
+         "{d}/.archive/p.{x}", "{d}/sub/.late.{x}", "{d}/.hidden/deep/q.{x}", "{d}/..r.{x}"]
 
 
 def git(args, cwd, check=True):
